@@ -20,6 +20,7 @@ import (
 	"bufio"
 	"fmt"
 	"io"
+	"math"
 	"strconv"
 	"strings"
 
@@ -41,6 +42,8 @@ func Read(fd io.Reader) (*Metrics, error) {
 	charMetrics := false
 	kernPairs := false
 	scanner := bufio.NewScanner(fd)
+	// no limit on the line length: Write puts all ligatures of a glyph on one line
+	scanner.Buffer(nil, math.MaxInt)
 	for scanner.Scan() {
 		line := scanner.Text()
 		if strings.HasPrefix(line, "EndCharMetrics") {
